@@ -414,7 +414,7 @@ def _cli(smt, timeout_ms):
     return None
 
 
-def discharge(ob, timeout_ms=20000, use_cli=True):
+def discharge(ob, timeout_ms=20000, use_cli=True, split=True):
     """dict(verdict, backend, time, ...)   verdict: proved | candidate | unknown"""
     t0 = time.time()
     g = z3.simplify(ob.goal)
@@ -450,6 +450,20 @@ def discharge(ob, timeout_ms=20000, use_cli=True):
         return dict(verdict='proved', backend=zv, time=time.time() - t0)
     if r == z3.sat:
         cand = model_to_dict(s.model(), ob)
+    # 2b. a conjunctive goal is proved conjunct by conjunct (each query keeps the whole path condition)
+    if split and z3.is_and(g) and 1 < g.num_args() <= 64:
+        import copy
+        parts = []
+        for c in g.children():
+            o2 = copy.copy(ob)
+            o2.goal = c
+            r2 = discharge(o2, timeout_ms, use_cli, split=False)
+            if r2['verdict'] != 'proved':
+                parts = None
+                break
+            parts.append(r2['backend'])
+        if parts:
+            return dict(verdict='proved', backend=sorted(set(parts))[-1] + '+split%d' % len(parts), time=time.time() - t0)
     # 3. more unfolding
     fs2 = query_formulas(ob, 2)
     try:
